@@ -35,6 +35,7 @@ class StringConcatViolation:
     line_number: int
     column: int
     loop_type: str  # 'for' or 'while'
+    loop_line: int = 0  # line of the innermost enclosing loop (identifies the loop)
 
 
 # thailint: ignore-next-line[srp.violation] Uses small focused methods to reduce complexity
@@ -141,6 +142,7 @@ class PythonStringConcatAnalyzer:
         violations: list[StringConcatViolation],
         in_loop: str | None = None,
         reset_vars: set[str] | None = None,
+        loop_line: int = 0,
     ) -> None:
         """Recursively find string concatenation in loops.
 
@@ -162,14 +164,17 @@ class PythonStringConcatAnalyzer:
             loop_reset_vars = self._find_vars_reset_in_loop(node)
             current_loop = loop_type
             current_reset_vars = loop_reset_vars
+            loop_line = getattr(node, "lineno", 0)
         else:
             current_loop = in_loop
             current_reset_vars = reset_vars
 
-        self._check_for_string_concat(node, violations, current_loop, current_reset_vars)
+        self._check_for_string_concat(node, violations, current_loop, current_reset_vars, loop_line)
 
         for child in ast.iter_child_nodes(node):
-            self._find_concat_in_loops(child, violations, current_loop, current_reset_vars)
+            self._find_concat_in_loops(
+                child, violations, current_loop, current_reset_vars, loop_line
+            )
 
     def _get_loop_type(self, node: ast.AST) -> str | None:
         """Get the loop type if node is a loop, else None."""
@@ -257,11 +262,15 @@ class PythonStringConcatAnalyzer:
         violations: list[StringConcatViolation],
         loop_type: str | None,
         reset_vars: set[str] | None = None,
+        loop_line: int = 0,
     ) -> None:
         """Check if node is a string concatenation in a loop and add violation if so."""
         if not self._is_add_aug_assign_in_loop(node, loop_type):
             return
+        before = len(violations)
         self._process_aug_assign(node, violations, loop_type or "", reset_vars)
+        for violation in violations[before:]:
+            violation.loop_line = loop_line
 
     def _process_aug_assign(
         self,
@@ -353,13 +362,14 @@ class PythonStringConcatAnalyzer:
         Returns:
             Deduplicated list with one violation per variable per loop
         """
-        # Group by variable name and keep first occurrence
-        seen: set[str] = set()
+        # Group by variable name and loop, keep first occurrence
+        seen: set[tuple[str, int]] = set()
         result: list[StringConcatViolation] = []
 
         for v in violations:
-            if v.variable_name not in seen:
-                seen.add(v.variable_name)
+            key = (v.variable_name, v.loop_line)
+            if key not in seen:
+                seen.add(key)
                 result.append(v)
 
         return result
